@@ -227,6 +227,39 @@ func runC15(c *Ctx) {
 		c.Check(bad == "", "R15.5", FuncName(f)+" :: returns deep copies", fpos(f), "yes", "returns shared objects: "+bad)
 	}
 
+	// ---------- R15.7 one source per cached kind
+	c.Rule("R15.7", "E1", "reads of a cached kind come from the cache only (the live state only through the explicit *Uncached API): one source, so reads cannot go backwards", 5)
+
+	handledFalse := func(recv string) string {
+		return "false(call:" + cacheT + ".IsHandled(" + recv + ",*"
+	}
+
+	for name, inner := range map[string]string{"get": "(*" + pkgOwned + ".State).Get", "list": "(*" + pkgOwned + ".State).List"} {
+		f := p.Method(pkgCtrlState, "StateAdapter", name)
+		c.MustCut("R15.7", "OwnedState read ⊣ {kind not cached, explicit uncached read}", f, p.CallTo(inner),
+			CutSpec{Edges: FactEdge(handledFalse("*param#0.Cache"), "true(param#2)")}, 1)
+	}
+
+	if f := p.Method(pkgCtrlState, "StateAdapter", "ContextWithTeardown"); f != nil {
+		c.MustCut("R15.7", "OwnedState.ContextWithTeardown ⊣ {kind not cached}", f, p.CallTo("(*"+pkgOwned+".State).ContextWithTeardown"), CutSpec{Edges: FactEdge(handledFalse("*param#0.Cache"))}, 1)
+	}
+
+	for _, name := range []string{"Get", "List"} {
+		f := p.Method(pkgCache, "stateWrapper", name)
+		c.MustCut("R15.7", "wrapped state read ⊣ {kind not cached}", f, p.CallTo("(pkg/state.CoreState)."+name), CutSpec{Edges: FactEdge(handledFalse("*param#0.cache"))}, 1)
+	}
+
+	// the public uncached entry points are the only callers that pass disableCache=true
+	for _, spec := range []struct{ fn, inner, want string }{{"Get", "get", "const:false"}, {"GetUncached", "get", "const:true"}, {"List", "list", "const:false"}, {"ListUncached", "list", "const:true"}} {
+		f := p.Method(pkgCtrlState, "StateAdapter", spec.fn)
+		if !c.NeedFunc("R15.7", f, "StateAdapter."+spec.fn) {
+			continue
+		}
+
+		calls := p.Calls(f, "(*"+pkgCtrlState+".StateAdapter)."+spec.inner)
+		c.Check(len(calls) == 1 && p.ArgDesc(calls[0], 2) == spec.want, "R15.7", "StateAdapter."+spec.fn+" passes disableCache="+strings.TrimPrefix(spec.want, "const:"), fpos(f), "yes", "cache bypass flag differs")
+	}
+
 	// ---------- R15.6 teardown waiters
 	c.Rule("R15.6", "E1", "teardown waiters: closed on TearingDown put / any remove; entry deleted only with close; never overwritten; immediate cancel when absent or tearing down", 9)
 
